@@ -69,7 +69,16 @@ def run_case(c, rnd, tmp):
                 kw["obs_models"] = observation_model_factory("gaussian-diagonal", dimension=dim)
             model = model_factory(kind, instance_name=("my-model_1" if iname == "custom" else None), **kw)
             mem = {"fit_mem2": 2, "fit_mem3": 3}.get(origin, 1)
-            model.fit(data, "mcmc_saem", n_iter=3 + mem, n_burn_in_iter=3, seed=rnd.randrange(1000), progress_bar=False)
+            for attempt in range(4):
+                try:
+                    model.fit(data, "mcmc_saem", n_iter=3 + mem, n_burn_in_iter=3, seed=rnd.randrange(1000), progress_bar=False)
+                    break
+                except Exception as e:  # noqa: BLE001
+                    # a tiny cohort on which the calibration itself degenerates (a variance collapsing to zero) says nothing about
+                    # save / load: another seed is drawn (a fresh model object, the failed one is discarded)
+                    if type(e).__name__ != "LeaspyConvergenceError" or attempt == 3:
+                        raise
+                    model = model_factory(kind, instance_name=("my-model_1" if iname == "custom" else None), **kw)
             if origin == "edited":
                 # hand-written values put into the fitted model object itself
                 new = {}
